@@ -29,7 +29,9 @@ RULE = ("base files: seeded choice of write path (writer, writer HISTORY = porti
         "(truncate/extend a feature or trace, event count +-k or removed, ROI x/y, unknown "
         "feature, 'def', delete one mandatory key or the whole imaging section, permute / shift "
         "/ shorten index, channel/laser/sample counts, channel name removed, laser power 0, "
-        "external link, set-up value <= 0); each file is checked, repacked+checked, "
+        "external link added / an existing feature replaced in place by an external link, shape "
+        "of one image-like feature (image, image_bg, mask) changed, set-up value <= 0); the same "
+        "path is checked before and after every single corruption; each file is checked, repacked+checked, "
         "compressed+checked. A case is non-trivial when it has at least one corruption; "
         "distinct = distinct (write path, feature set, corruption list).")
 TRUSTED_BASE = [
@@ -41,7 +43,10 @@ ASSUMPTIONS = [
     "sections of ds.config exist when they hold a key or were touched before "
     "check_metadata_missing (experiment, setup, fluorescence) — Model/Check.lean:alwaysTouched",
     "files without `event count` whose first stored feature is `trace` are not generated",
-    "ml_class / ml_score features are not generated (cue modelled as a flag only)"]
+    "ml_class / ml_score features are not generated (cue modelled as a flag only)",
+    "truncating corruptions keep at least one row: a zero-length trace member makes "
+    "check_fl_samples_per_event raise IndexError (observation, not generated); event counts "
+    "are never made negative"]
 NOT_PROVED = [
     "alert- and info-level cues (not modelled; not compared)",
     "closure for export/compress/repack/condense/split/join/tdms2rtdc outputs is "
@@ -63,6 +68,7 @@ FEATSETS = {
     "image": ["deform", "area_um", "image", "index", "pos_x"],
     "fl": ["deform", "area_um", "fl1_max", "trace", "index"],
     "flimg": ["deform", "fl1_max", "fl2_max", "image", "trace"],
+    "imgs": ["deform", "image", "image_bg", "mask", "index"],
 }
 PATHS = ["writer", "history", "export", "export-subset", "compress", "repack", "condense", "split",
          "join"]
@@ -172,7 +178,10 @@ def make_base(ctx, wd, spec):
         return out
     if wpath in ("compress", "repack", "condense"):
         write_base(src, fs, n)
-        getattr(cli, wpath)(path_in=src, path_out=out)
+        import io
+        import contextlib
+        with contextlib.redirect_stdout(io.StringIO()):
+            getattr(cli, wpath)(path_in=src, path_out=out)
         return out
     if wpath == "split":
         write_base(src, fs, 2 * n)
@@ -259,6 +268,11 @@ def gen_corruption(rng, h_info):
     scal = [f for f in feats if f not in ("trace",) and not f.startswith("basinmap")]
     if scal and n > 3:
         kinds += ["trunc", "extend"]
+    imgs = [f for f in ("image", "image_bg", "mask") if f in feats]
+    if imgs:
+        kinds += ["imgshape", "imgshape"]
+    if scal:
+        kinds += ["extreplace"]
     if "image" in feats:
         kinds += ["roi", "delimaging"]
     if "index" in feats:
@@ -268,10 +282,16 @@ def gen_corruption(rng, h_info):
     if fl:
         kinds += ["chancount", "lasercount", "delchan", "power0", "delkeyfl"]
     if fl and traces:
-        kinds += ["samples", "trtrunc"]
+        kinds += ["samples"]
+    if fl and traces and n > 3:       # truncations keep at least one event (see ASSUMPTIONS)
+        kinds += ["trtrunc"]
     k = rng.choice(kinds)
     if k in ("trunc", "extend"):
         return (k, rng.choice(scal), rng.randint(1, 3))
+    if k == "imgshape":
+        return (k, rng.choice(imgs), rng.choice(["x", "y"]), rng.choice([-1, 1, 3]))
+    if k == "extreplace":
+        return (k, rng.choice([f for f in scal if f != "index"] or scal))
     if k == "evcount":
         return (k, rng.choice([-2, -1, 1, 3]))
     if k == "roi":
@@ -309,6 +329,10 @@ def expected_cues(op, info):
         return ["missingKey:experiment:event%20count"]
     if k == "roi":
         return [] if "image" not in info["feats"] else [f"roiMismatch:roi%20size%20{op[1]}:image"]
+    if k == "imgshape":
+        return [f"roiMismatch:roi%20size%20{op[2]}:{op[1]}"]
+    if k == "extreplace":
+        return ["externalLink"]
     if k == "unknown":
         return ["unknownFeature:peter"]
     if k == "delkey":
@@ -331,6 +355,33 @@ def expected_cues(op, info):
 
 
 def apply_corruption(path, op, wd):
+    """apply one corruption; returns False (file untouched or still readable) when it does not
+    apply to the file as it is now, e.g. its target was turned into an external link before"""
+    import gc
+    import h5py
+    gc.collect()                        # drop handles to linked files left over from checks
+    try:
+        with h5py.File(path, "r") as h:
+            ev = h.get("events", {})
+            target = None
+            if op[0] in ("trunc", "extend", "imgshape", "extreplace"):
+                target = (ev, op[1])
+            elif op[0] == "trtrunc":
+                target = (ev.get("trace", {}), op[1])
+            elif op[0] in ("permindex", "shiftindex"):
+                target = (ev, "index")
+            if target is not None:
+                grp, name = target
+                if name not in grp or not isinstance(grp.get(name, getlink=True), h5py.HardLink) \
+                        or not isinstance(grp[name], h5py.Dataset):
+                    return False
+        _apply_corruption(path, op, wd)
+        return True
+    except Exception:  # noqa
+        return False
+
+
+def _apply_corruption(path, op, wd):
     import h5py
     k = op[0]
     with h5py.File(path, "a") as h:
@@ -343,9 +394,25 @@ def apply_corruption(path, op, wd):
             replace_ds(h, "events/" + op[1], np.concatenate([a, a[:op[2]]]))
         elif k == "trtrunc":
             replace_ds(h, "events/trace/" + op[1], ev["trace"][op[1]][:-op[2]])
+        elif k == "imgshape":
+            a = ev[op[1]][:]
+            ax = 2 if op[2] == "x" else 1
+            if op[3] < 0:
+                a = np.delete(a, 0, axis=ax)
+            else:
+                a = np.concatenate([a] + [np.take(a, [0], axis=ax)] * op[3], axis=ax)
+            replace_ds(h, "events/" + op[1], a)
+        elif k == "extreplace":
+            if op[1] in ev and isinstance(ev.get(op[1], getlink=True), h5py.HardLink):
+                ext = wd / f"ext_{op[1]}.h5"
+                with h5py.File(ext, "w") as e:
+                    e["x"] = ev[op[1]][:]
+                del ev[op[1]]                       # replaced in place by a link to the same data
+                ev[op[1]] = h5py.ExternalLink(str(ext), "/x")
         elif k == "evcount":
             if "experiment:event count" in h.attrs:
-                h.attrs["experiment:event count"] = int(h.attrs["experiment:event count"]) + op[1]
+                old = int(h.attrs["experiment:event count"])
+                h.attrs["experiment:event count"] = old + op[1] if old + op[1] >= 0 else old - op[1]
         elif k == "evdel":
             h.attrs.pop("experiment:event count", None)
         elif k == "roi":
@@ -404,9 +471,34 @@ def nrows(h):
     import h5py
     ev = h.get("events", {})
     for f in sorted(ev):
+        if not isinstance(ev.get(f, getlink=True), h5py.HardLink):
+            continue                                    # do not follow external links
         if isinstance(ev[f], h5py.Dataset):
             return int(ev[f].shape[0])
     return int(h.attrs.get("experiment:event count", 0))
+
+
+def has_empty_event_dataset(path):
+    """raw h5py: is there a dataset with zero rows in /events (input class of F27)?"""
+    import gc
+    import h5py
+    gc.collect()
+    try:
+        with h5py.File(path, "r") as h:
+            ev = h.get("events", {})
+            for f in ev:
+                try:
+                    obj = ev[f]              # external links are followed, as rtdc_copy does
+                except Exception:  # noqa
+                    continue
+                if isinstance(obj, h5py.Dataset) and obj.shape[0] == 0:
+                    return True
+                if isinstance(obj, h5py.Group) and any(
+                        isinstance(obj[m], h5py.Dataset) and obj[m].shape[0] == 0 for m in obj):
+                    return True
+    except Exception:  # noqa
+        pass
+    return False
 
 
 def file_info(path):
@@ -416,7 +508,10 @@ def file_info(path):
         feats = sorted(ev.keys())
         traces = sorted(ev["trace"].keys()) if "trace" in ev else []
         from dclab import definitions as dfn
+        nonempty = any(isinstance(ev.get(f, getlink=True), h5py.HardLink) and len(ev[f]) > 0
+                       for f in feats)
         return {"feats": feats, "traces": traces, "n": nrows(h), "known": dfn.feature_exists,
+                "nonempty": nonempty,
                 "fl": any(f in ev for f in ("fl1_max", "fl2_max", "fl3_max"))}
 
 
@@ -503,17 +598,39 @@ def run_case(ctx, idx, spec, corr):
                 drawn.append(op)
         corr = drawn
     res["corr"] = corr
-    for op in corr:
-        apply_corruption(p, op, wd)
+    # the SAME path is checked before and after every single corruption (one process)
     v, nal = check(p)
+    if corr:
+        if not isinstance(v, list):
+            res["problems"].append(("spec", f"check_dataset raised {v} on the uncorrupted file "
+                                            f"(write path {spec[0]})"))
+        elif v and not (partial_fl_subset(spec) and v == ["channelCount"]):
+            res["problems"].append(("spec", f"file written through '{spec[0]}' ({spec[1:]}, "
+                                            f"complete metadata) has violations {v[:4]}"))
+    applied = []
+    for i, op in enumerate(corr):
+        if not apply_corruption(p, op, wd):
+            ctx.stat("corruption_not_applicable")
+            continue
+        applied.append(op)
+        v, nal = check(p)
+        if isinstance(v, list) and i + 1 < len(corr):
+            for cue in expected_cues(op, info):
+                if cue not in v and applicable(op, applied, info):
+                    res["problems"].append(
+                        ("spec", f"corruption {op} is not reported when the file is checked "
+                                 f"again: cue {cue} missing from {v[:6]}"))
+    corr = applied
+    res["corr"] = corr
     res["v"] = v
     res["alerts"] = nal
+    res["empty_event_ds"] = has_empty_event_dataset(p)
     res["lines"] = c13_util.describe(p) + ["viol", "violcopy", "violcompress", "oldindexraises",
                                            f"exit {nal} {len(v) if isinstance(v, list) else 0}"]
     if not isinstance(v, list):
         count_removed = any(o[0] == "evdel" or o[:3] == ("delkey", "experiment", "event count")
                             for o in corr)
-        if count_removed and v.startswith("exc:ValueError") and info["n"] == 0:
+        if count_removed and v.startswith("exc:ValueError") and not info["nonempty"]:
             res["size_unknown"] = True          # F36, confirmed against the model in `judge`
         else:
             res["problems"].append(("spec", f"check_dataset raised {v} instead of reporting "
@@ -547,6 +664,8 @@ def run_case(ctx, idx, spec, corr):
             res[task] = check(out)[0]
         except Exception as e:  # noqa
             res[task] = "exc:" + type(e).__name__ + ":" + str(e)[:80]
+            res[task + "_F27"] = bool(isinstance(e, AttributeError) and "'attrs'" in str(e)
+                                      and res["empty_event_ds"])
     shutil.rmtree(wd, ignore_errors=True)
     return res
 
@@ -556,12 +675,12 @@ def applicable(op, corr, info):
     same = [o for o in corr if o is not op and o[0] in (
         "trunc", "extend", "evcount", "evdel", "roi", "delkey", "delimaging", "permindex",
         "shiftindex", "addindex", "chancount", "lasercount", "samples", "delchan", "power0",
-        "nonpos", "trtrunc")]
+        "nonpos", "trtrunc", "imgshape")]
     return not same
 
 
 DERIVED = ("evcount", "evdel", "roi", "samples", "delkey", "delimaging", "trunc", "extend",
-           "trtrunc", "chancount")
+           "trtrunc", "chancount", "imgshape")
 
 
 def judge(ctx, res, answers):
@@ -576,6 +695,11 @@ def judge(ctx, res, answers):
         for task in ("repack", "compress"):
             vt = res.get(task)
             if vt == v:
+                continue
+            if not isinstance(vt, list) and res.get(task + "_F27"):
+                ctx.known("F27", "an empty dataset in /events (e.g. the export of an empty "
+                                 "selection) makes rtdc_copy raise AttributeError: the file cannot "
+                                 "be repacked / compressed")
                 continue
             if not isinstance(vt, list):
                 res["problems"].append(("spec", f"{task} of the file raised / check raised: {vt}"))
@@ -674,7 +798,13 @@ def run(ctx, only=None):
         spec = tuple(spec)
         if not (corr and corr[0] == "draw"):
             corr = [tuple(c) for c in corr]
-        res = run_case(ctx, i, spec, corr)
+        try:
+            res = run_case(ctx, i, spec, corr)
+        except Exception as e:  # noqa  -- generator / bookkeeping trouble is never a verdict
+            ctx.stat("cases_skipped_generator_error")
+            ctx.note(f"a generated case was skipped after a harness-side error: {e!r}"[:200])
+            shutil.rmtree(ctx.workdir / f"case{i}", ignore_errors=True)
+            continue
         corr = res["corr"]
         results.append(res)
         ctx.case((spec[:2], json.dumps(spec[3] if len(spec) > 3 else {}, sort_keys=True),
@@ -708,7 +838,10 @@ def run(ctx, only=None):
             corr = res["corr"]
             if len(corr) > 1 and only is None:     # shrink: does a single corruption suffice?
                 for op in corr:
-                    r1 = run_case(ctx, 9999, res["spec"], [op])
+                    try:
+                        r1 = run_case(ctx, 9999, res["spec"], [op])
+                    except Exception:  # noqa
+                        continue
                     if judge(ctx, r1, None):
                         res = r1
                         break
